@@ -12,7 +12,7 @@ CHECKS = {
     note="bounded configurations; CPython-level atomicity of list/lock operations; simulated Lock/list/stream wrappers stand in for the OS scheduler"),
  "C13": dict(
     spec="RpycServe", design="5/C13",
-    technique="TLA+ spec RpycServe (serve/wait/dispatch, one action per shared operation) model-checked by TLC; state-graph transition cover replayed into real client threads + BgServingThread under a deterministic scheduler; random and preemption-bounded exhaustive implementation schedules trace-validated by TLC and judged by per-request oracles; every source line of serve/_dispatch/_seq_request_callback/_async_request/AsyncResult.wait/__call__/value as the one forced preemption point, including requests the peer answers with an exception; TLA+ spec RpycServeNested (replies carrying references: INSPECT round trip inside the dispatch, serve() re-entered on the dispatching thread, activation stacks) model-checked and bound by judged and trace-validated implementation schedules",
+    technique="TLA+ spec RpycServe (serve/wait/dispatch, one action per shared operation; client threads, BgServingThread, serving-only threads as in serve_threaded) model-checked by TLC; state-graph transition cover replayed into real client threads + BgServingThread under a deterministic scheduler; random and preemption-bounded exhaustive implementation schedules trace-validated by TLC and judged by per-request oracles; every source line of serve/_dispatch/_seq_request_callback/_async_request/AsyncResult.wait/__call__/value as the one forced preemption point, including requests the peer answers with an exception; TLA+ spec RpycServeNested (replies carrying references: INSPECT round trip inside the dispatch, serve() re-entered on the dispatching thread, activation stacks) model-checked and bound by judged and trace-validated implementation schedules",
     text="TLC exhausts 2-3 client threads (+ background server) against a peer answering in any order for receive-lock exclusion, exactly-once dispatch, reply/request matching, no lost wake-up, no hang, termination; the real serve()/AsyncResult code is driven along every edge of the state graph with state comparison, and implementation schedules are checked against the spec by TLC and by direct oracles (result identity, dispatch counts, sequence numbers, deadlock / lost wake-up detection in virtual time)",
     note="bounded configurations; sending is one step (C12); preemption at shared-object operations (source lines in the thorough tier); simulated Lock/Condition/clock/transport"),
  "C14": dict(
